@@ -957,7 +957,7 @@ func (c *Ctx) builtinAppend(fr *Frame, st *State, site *ssa.Call, args []*Val, r
 	nl := c.defineInt("alen", app("+", sl, tl))
 	fits := c.define("fits", "Bool", app("<=", nl, sc))
 	fref := c.allocRef(st, "grown")
-	c.assumeAlways(eq(app("rtype", fref), num(int64(c.prog.typeTag(rt)))))
+	c.assume(eq(app("rtype", fref), num(int64(c.prog.typeTag(rt)))))
 	ncap := c.fresh("acap", "Int")
 	c.assumeAlways(and(app(">=", ncap, nl), app("<=", ncap, maxObjSize)))
 	rref := c.define("aref", "Int", ite(fits, sr, fref))
